@@ -146,7 +146,7 @@ def midpoint_variants(F, bits, rng, tier):
         d2 = d.lstrip("0")
         if not d2:
             continue
-        for (i, f, ex) in forms(d2, e, rng, nforms=1 if tier == "quick" else 2):
+        for (i, f, ex) in forms(d2, e, rng, nforms=1)[:1]:
             out.append(mk(F.name, i, f, ex, "G2:" + name))
     return out
 
@@ -160,7 +160,7 @@ def g_midpoints(F, rng, tier, nexp=None, nrand=1):
         fields = sorted(keep | set(rng.sample(rest, nexp - len(keep))))
     for ef in fields:
         pats = sig_patterns(F, rng, nrand)
-        for fr in (pats if tier != "quick" else rng.sample(pats, 3)):
+        for fr in rng.sample(pats, 3 if tier == "quick" else min(4, len(pats))):
             bits = (ef << F.mbits) | fr
             out.extend(midpoint_variants(F, bits, rng, tier))
     return out
@@ -518,11 +518,11 @@ def g_moderate(F, rng, tier):
             out.append({"fmt": F.name, "w": core.limbs(w), "q": qq, "trunc": tr, "tag": tag})
 
     fields = list(range(0, F.emaxfield))
-    if q:
-        keep = {0, 1, 2, F.emaxfield - 1, F.emaxfield - 2, F.bias}
-        fields = sorted(keep | set(rng.sample(fields, 120 if F.name == "f64" else 80)))
+    keep = {0, 1, 2, F.emaxfield - 1, F.emaxfield - 2, F.bias}
+    nf = (120 if F.name == "f64" else 80) if q else (900 if F.name == "f64" else 254)
+    fields = sorted(keep | set(rng.sample(fields, min(nf, len(fields)))))
     for ef in fields:
-        for fr in rng.sample(sig_patterns(F, rng, 2), 2 if q else 6):
+        for fr in rng.sample(sig_patterns(F, rng, 2), 2 if q else 3):
             bits = (ef << F.mbits) | fr
             M, k = F.midpoint(bits)
             ds, e10 = exact_decimal(M, k)
@@ -552,7 +552,7 @@ def g_moderate(F, rng, tier):
                     add(int(ds2), e2, False, "G3:float")
                     add(int(ds2), e2, True, "G3:float-trunc")
     # midpoints that start low in their decade (19-digit prefix 10^18 .. 1.15*10^18), every subnormal decade included
-    for bits in low_decade_midpoints(F, rng, 25 if q else 400, 2 if q else 6):
+    for bits in low_decade_midpoints(F, rng, 25 if q else 150, 2 if q else 3):
         M, k = F.midpoint(bits)
         ds, e10 = exact_decimal(M, k)
         n = len(ds)
